@@ -146,6 +146,14 @@ def gen_scenarios(ctx):
         for li in range(0, 6):
             sc.append({"pre": pos, "cause": "generic", "layer": li, "dir": "down", "occ": 0,
                        "op": ["send", "msg_a"], "reconnect": False, "followups": MSG_FOLLOWUPS})
+    # the socket write itself fails (connection lost while writing): reported synchronously by the dispatcher from
+    # inside sendData, i.e. on the sending thread with every layer lock of the path held; then reconnect
+    for pos in positions[:2]:
+        for occ in (0, 1):
+            sc.append({"pre": pos, "cause": "socket_write_fails", "layer": 0, "dir": "down", "occ": occ,
+                       "op": ["send", "presence"], "reconnect": True})
+        sc.append({"pre": pos, "cause": "socket_write_fails", "layer": 0, "dir": "down", "occ": 0,
+                   "op": ["recv", "iq_ping_from_server"], "reconnect": True})
     # real causes
     for pos in positions:
         for cause in REAL:
@@ -295,6 +303,20 @@ def run_impl(ctx, scn, seed):
         return out
 
     def fault(f_layer, f_dir, f_occ, f_op, cause):
+        if cause == "socket_write_fails":
+            # not an exception: the dispatcher reports the lost connection from inside sendData, on the sending
+            # thread, below every layer lock (and below the flush lock when the write is the answer to a ping)
+            rig.arm_socket_failure(f_occ)
+            r = do(0, tuple(f_op), cause=cause, role="lost")
+            if workers[0].stuck:
+                return r
+            st, fired = workers[1].run(rig.after_socket_failure, 8.0)
+            if st == "done" and fired:
+                notes["fired"] += 1
+            elif st != "done":
+                notes["after_socket_failure"] = st
+                workers[1] = Worker()
+            return r
         if cause in REAL:
             _, op, failspec, _ = REAL[cause]
             if cause.startswith("not_transport"):
@@ -740,6 +762,8 @@ def oracle(scn, obs, notes):
             # reaches the application, an incoming server ping is answered with one frame
             want_wire = 1 if (o["op"][0] == "send" or o["op"][1] == "iq_ping_from_server") else 0
             want_top = 1 if o["op"] == ["recv", "ack"] else 0
+            if o["role"] == "lost":
+                continue      # the write that lost the connection: returned, nothing held; the frame itself is gone
             if o["wire_error"] or o["wire_frames"] != want_wire or o["top"] != want_top:
                 probs.append("op %d (%s %s, %s) not processed normally: wire_frames=%s wire_error=%s top=%s"
                              % (i, o["op"][0], o["op"][1], o["role"], o["wire_frames"], o["wire_error"], o["top"]))
